@@ -185,6 +185,8 @@ def numeric_value(d) -> Optional[float]:
           "atanh": math.atanh, "cos": math.cos, "sin": math.sin, "tan": math.tan}
 
     def val_atom(a: str) -> Optional[float]:
+        if a == "pi":
+            return math.pi
         if a not in _FUNC_ARG or "(" not in a:
             return None
         name = a[:a.index("(")]
